@@ -649,6 +649,39 @@ Section Peer.
     split; [reflexivity|]. split; [exact C'|]. split; [exact A'|congruence].
   Qed.
 
+  (* the same two theorems, saying in addition that exactly the answered exchanges were consumed from the peer's script
+     (needed to chain calls: C15's split run) *)
+  Theorem recovery_s fuel s w ms s' w' r :
+    Sync s w -> authed s = false -> (maxlen < fuel)%nat -> valid_req ms = true -> okm ms -> healthy 2 (est msg pstate w) ->
+    send_multiple fuel s w ms = (s', w', r) ->
+    script (est msg pstate w') = tl (tl (script (est msg pstate w))).
+  Proof using All.
+    intros HS Ha Hf Hv Hokm Hh H.
+    destruct (recovery fuel s w ms s' w' r HS Ha Hf Hv Hokm Hh H) as (Hr & _).
+    revert H. unfold Client.send_multiple.
+    destruct (step_connect s w HS) as (s0 & w0 & j & E0 & HS0 & Hc0 & Hl0 & Hsc0 & Ha0). rewrite E0, Ha0, Ha.
+    destruct (authenticate fuel s0 w0) as [[s1 w1] r1] eqn:Eau.
+    destruct (step_auth fuel s0 w0 j s1 w1 r1 HS0 Hc0 Hf Eau) as (A & C & Dsc & D).
+    destruct r1 as [u|x1]; [|intros [= _ _ Hx]; rewrite Hr in Hx; discriminate].
+    destruct D as (Hc1 & Ha1 & _). intro H.
+    destruct (exchange (fun x => x) fuel s1 w1 ms j s' w' r id_level_only A Hc1 Hv Hokm Hf) as (A' & B' & C' & Dsc' & D' & O').
+    { destruct (send s1 w1 ms) as [[sb wb] [u'|x']]; exact H. }
+    rewrite Dsc', Dsc, Hsc0. reflexivity.
+  Qed.
+
+  Theorem steady_s fuel s w ms s' w' r :
+    Sync s w -> authed s = true -> (maxlen < fuel)%nat -> valid_req ms = true -> okm ms ->
+    send_multiple fuel s w ms = (s', w', r) ->
+    script (est msg pstate w') = tl (script (est msg pstate w)).
+  Proof using All.
+    intros HS Ha Hf Hv Hokm. unfold Client.send_multiple.
+    destruct (cur msg pstate w) as [j|] eqn:Ec; [|destruct HS as [_ HS]; rewrite Ec in HS; congruence].
+    rewrite Ha. intro H.
+    destruct (exchange (fun x => x) fuel s w ms j s' w' r id_level_only HS Ec Hv Hokm Hf) as (A' & B' & C' & Dsc' & D' & O').
+    { destruct (send s w ms) as [[sb wb] [u'|x']]; exact H. }
+    exact Dsc'.
+  Qed.
+
   (* ---- whole histories of calls ---- *)
   Fixpoint run_res (s : cstate) (w : world) (cs : list (call msg)) : cstate * world * list (option (res (list msg))) :=
     match cs with
